@@ -369,8 +369,9 @@ private:
         m_senders_waiting++;
         DEFER(m_senders_waiting--);
 
-        // Wait for a receiver
-        while (!m_closed && m_receivers_waiting == 0 && !m_handoff_ready) {
+        // Wait for a receiver, and for the hand-off slot to be free: another
+        // sender's value may still be sitting in it
+        while (!m_closed && (m_receivers_waiting == 0 || m_handoff_ready)) {
             if (timeout.expired()) {
                 delete ptr;
                 errno = ETIMEDOUT;
@@ -434,7 +435,8 @@ private:
             delete m_handoff_ptr;
             m_handoff_ptr = nullptr;
             m_handoff_ready = false;
-            m_unbuf_send_cv.notify_one();
+            // wake the sender whose value was taken as well as senders waiting for the slot
+            m_unbuf_send_cv.notify_all();
             return true;
         }
 
@@ -467,7 +469,8 @@ private:
             delete m_handoff_ptr;
             m_handoff_ptr = nullptr;
             m_handoff_ready = false;
-            m_unbuf_send_cv.notify_one();
+            // wake the sender whose value was taken as well as senders waiting for the slot
+            m_unbuf_send_cv.notify_all();
             return true;
         }
         return false;
